@@ -129,6 +129,7 @@ func checkC17(c *ev.Ctx) {
 		in := k.input()
 		sink := mon.NewSink()
 		var werr error
+		flushed := false
 		pn := mon.Guard(func() {
 			props := &lzma.Properties{LC: k.LC, LP: k.LP, PB: k.PB}
 			if k.Writer == "xz" {
@@ -147,12 +148,29 @@ func checkC17(c *ev.Ctx) {
 					werr = err
 					return
 				}
-				if _, werr = w.Write(in); werr != nil {
+				if k.Kind == "xx" && k.Seed%4 == 0 {
+					// the same bytes with a Flush between the two copies: the bound on X||X does
+					// not exclude it (only the random-data bound is stated 'without Flush')
+					if _, werr = w.Write(in[:k.N]); werr != nil {
+						return
+					}
+					if werr = w.Flush(); werr != nil {
+						return
+					}
+					in2 := in[k.N:]
+					if _, werr = w.Write(in2); werr != nil {
+						return
+					}
+					flushed = true
+				} else if _, werr = w.Write(in); werr != nil {
 					return
 				}
 				werr = w.Close()
 			}
 		})
+		if flushed {
+			c.Count("xx_with_flush_between_copies", 1)
+		}
 		if pn != nil || werr != nil {
 			c.Inconclusive(fmt.Sprintf("writer failed in case %s (judged by C01/C08): %v %v", k.ID, werr, pn))
 			return
